@@ -316,7 +316,50 @@ fn boards(r: &Run) {
             fail = Some(format!("PadWing board {n}: device id is not the first 4 MAC bytes"));
         }
     }
-    r.with_ev(|ev| ev.evals(8 + 71));
+    // near misses: a golden MAC or device id with one byte changed is another golden entry or unknown
+    let a16_macs: HashSet<[u8; 6]> = ALPHA16_BOARDS.iter().map(|x| x.1).collect();
+    let pwb_macs: HashSet<[u8; 6]> = PADWING_BOARDS.iter().map(|x| x.1).collect();
+    let pwb_ids: HashSet<u32> = PADWING_BOARDS.iter().map(|x| x.2).collect();
+    let mut probes = 0u64;
+    for (n, mac) in ALPHA16_BOARDS {
+        for i in 0..6 {
+            for v in [mac[i] ^ 1, mac[i] ^ 0x80, 0, 255, mac[i].wrapping_add(1)] {
+                let mut m = mac;
+                m[i] = v;
+                probes += 1;
+                if !a16_macs.contains(&m) && alpha16::BoardId::try_from(m).is_ok() {
+                    fail = Some(format!("Alpha16: MAC {m:?} (board {n} with byte {i} changed) is not in the table but resolves to a board"));
+                }
+            }
+        }
+    }
+    for (n, mac, id) in PADWING_BOARDS {
+        for i in 0..6 {
+            for v in [mac[i] ^ 1, mac[i] ^ 0x80, 0, 255, mac[i].wrapping_add(1)] {
+                let mut m = mac;
+                m[i] = v;
+                probes += 1;
+                if !pwb_macs.contains(&m) && padwing::BoardId::try_from(m).is_ok() {
+                    fail = Some(format!("PadWing: MAC {m:?} (board {n} with byte {i} changed) is not in the table but resolves to a board"));
+                }
+            }
+        }
+        for i in 0..4 {
+            for v in [1u8, 0x80, 0xFF] {
+                let mut b = id.to_le_bytes();
+                b[i] ^= v;
+                let d = u32::from_le_bytes(b);
+                probes += 1;
+                if !pwb_ids.contains(&d) && padwing::BoardId::try_from(d).is_ok() {
+                    fail = Some(format!("PadWing: device id {d:#x} (board {n} with byte {i} changed) is not in the table but resolves to a board"));
+                }
+            }
+        }
+    }
+    r.with_ev(|ev| {
+        ev.evals(8 + 71 + probes);
+        ev.label_n("board-table-near-misses", probes);
+    });
     if let Some(m) = fail {
         r.report("boards", Value::Null, Fail::new("board-table", m));
     }
